@@ -463,6 +463,247 @@ def run (st : St) : List Op → St × List Out
 
 def exec (st : St) (ops : List Op) : St := (run st ops).1
 
+/-! ### re-entrant user code
+
+  A user subclass may make `parent` / `key` properties whose setters run arbitrary code, and a
+  loader may use the resource tree while it loads.  Such code is a *script*: a list of operations
+  of this same model, executed silently (what they return is dropped, what they raise is caught by
+  the script) at the moment the library assigns the attribute / calls `load()`.  The functions
+  below are the re-entrant versions of the operations above, mirroring the same statements of
+  tree.py, with the hooks at the places where the Python code runs user code:
+    `value.parent = …`, `value.key = …`        tree.py:262-263 (`__setitem__`), 283-284, 288-289 (`clear`)
+    `self.load()`                               tree.py:43 (`Handle.__call__`)
+  Re-entrancy is real recursion, bounded by a fuel parameter ("the user's program terminates").
+  `clear` iterates live dictionaries (tree.py:281-289): a Python dict that changed size while it is
+  iterated raises RuntimeError at the next step; the loops below re-read the dictionary at every
+  step and compare its size with the size at the start of the loop.
+  Without scripts these functions compute what the plain ones compute; the theorems of C11/C12/C17
+  are about the plain ones (objects without re-entrant user code).
+-/
+
+/-- where the library runs user code -/
+inductive Hook where
+  /-- the setter of `x.parent` -/
+  | parent (x : Ref)
+  /-- the setter of `x.key` -/
+  | key (x : Ref)
+  /-- `h.load()` -/
+  | load (h : HId)
+deriving DecidableEq, Repr, Inhabited
+
+/-- state plus how often each hook has run -/
+structure RSt where
+  st : St := {}
+  fired : Dict Hook Nat := []
+deriving Inhabited
+
+/-- the script of the k-th run (0-based) of a hook -/
+abbrev Scripts := Hook → Nat → List Op
+
+mutual
+/-- run the script of this hook (silently) -/
+def fire (S : Scripts) : Nat → RSt → Hook → RSt
+  | 0, rs, _ => rs
+  | fuel + 1, rs, hk =>
+    let k := (Dict.get? rs.fired hk).getD 0
+    execOpsR S fuel { rs with fired := Dict.set rs.fired hk (k + 1) } (S hk k)
+
+/-- `x.parent = p` -/
+def setParentR (S : Scripts) : Nat → RSt → Ref → Option MId → RSt
+  | 0, rs, _, _ => rs
+  | fuel + 1, rs, x, p =>
+    let st := match x with
+      | .map c => rs.st.setM c { rs.st.m c with parent := p }
+      | .handle h => rs.st.setH h { rs.st.h h with parent := p }
+    fire S fuel { rs with st := st } (.parent x)
+
+/-- `x.key = k` -/
+def setKeyR (S : Scripts) : Nat → RSt → Ref → Option String → RSt
+  | 0, rs, _, _ => rs
+  | fuel + 1, rs, x, k =>
+    let st := match x with
+      | .map c => rs.st.setM c { rs.st.m c with key := k }
+      | .handle h => rs.st.setH h { rs.st.h h with key := k }
+    fire S fuel { rs with st := st } (.key x)
+
+/-- the single-key tail of `__setitem__` : tree.py:250-263 -/
+def assignR (S : Scripts) : Nat → RSt → MId → String → Ref → RSt
+  | 0, rs, _, _, _ => rs
+  | fuel + 1, rs, t, last, v =>
+    let n := rs.st.m t
+    let st := match v with
+      | .map c => rs.st.setM t { n with layer0 := Dict.erase n.layer0 last,
+                                        lower := n.lower.map (Dict.erase · last),
+                                        maps := Dict.set n.maps last c }
+      | .handle h => rs.st.setM t { n with maps := Dict.erase n.maps last,
+                                           layer0 := Dict.set n.layer0 last h }
+    -- value.parent = target_map; value.key = last_key
+    let rs := setParentR S fuel { rs with st := st } v (some t)
+    setKeyR S fuel rs v (some last)
+
+/-- `__setitem__`: the maps created for intermediate key parts are plain ResourceMaps (no user code) -/
+def setItemR (S : Scripts) : Nat → RSt → MId → String → Ref → RSt
+  | 0, rs, _, _, _ => rs
+  | fuel + 1, rs, i, key, v =>
+    let r := descend rs.st i (keyPath key).1
+    assignR S fuel { rs with st := r.1 } r.2 (keyPath key).2 v
+
+/-- `for handle in layer.values()` over the live layer `li` of map `i`, from position `idx`;
+`n0`: the size of that dictionary when the loop started -/
+def clearHandlesR (S : Scripts) : Nat → RSt → MId → Nat → Nat → Nat → RSt × Outcome Unit
+  | 0, rs, _, _, _, _ => (rs, .raised "RecursionError")
+  | fuel + 1, rs, i, li, idx, n0 =>
+    match (rs.st.m i).layers[li]? with
+    | none => (rs, .ok ())
+    | some layer =>
+      if layer.length ≠ n0 then (rs, .raised "RuntimeError")
+      else
+        match layer[idx]? with
+        | none => (rs, .ok ())
+        | some (_, h) =>
+          let rs :=
+            if (rs.st.h h).parent = some i then
+              setKeyR S fuel (setParentR S fuel rs (.handle h) none) (.handle h) none
+            else rs
+          clearHandlesR S fuel rs i li (idx + 1) n0
+
+/-- `for layer in self.handles.maps` (a live list, by index) -/
+def clearLayersR (S : Scripts) : Nat → RSt → MId → Nat → RSt × Outcome Unit
+  | 0, rs, _, _ => (rs, .raised "RecursionError")
+  | fuel + 1, rs, i, li =>
+    match (rs.st.m i).layers[li]? with
+    | none => (rs, .ok ())
+    | some layer =>
+      match clearHandlesR S fuel rs i li 0 layer.length with
+      | (rs', .ok _) => clearLayersR S fuel rs' i (li + 1)
+      | r => r
+
+/-- `for map_ in self.maps.values()` over the live dictionary -/
+def clearMapsR (S : Scripts) : Nat → RSt → MId → Nat → Nat → RSt × Outcome Unit
+  | 0, rs, _, _, _ => (rs, .raised "RecursionError")
+  | fuel + 1, rs, i, idx, n0 =>
+    let maps := (rs.st.m i).maps
+    if maps.length ≠ n0 then (rs, .raised "RuntimeError")
+    else
+      match maps[idx]? with
+      | none => (rs, .ok ())
+      | some (_, c) =>
+        let rs :=
+          if (rs.st.m c).parent = some i then
+            setKeyR S fuel (setParentR S fuel rs (.map c) none) (.map c) none
+          else rs
+        clearMapsR S fuel rs i (idx + 1) n0
+
+/-- `ResourceMap.clear` : tree.py:265-293 -/
+def clearR (S : Scripts) : Nat → RSt → MId → RSt × Outcome Unit
+  | 0, rs, _ => (rs, .raised "RecursionError")
+  | fuel + 1, rs, i =>
+    match clearLayersR S fuel rs i 0 with
+    | (rs, .ok _) =>
+      match clearMapsR S fuel rs i 0 (rs.st.m i).maps.length with
+      | (rs, .ok _) =>
+        ({ rs with st := rs.st.setM i { rs.st.m i with maps := [], layer0 := [], lower := [] } }, .ok ())
+      | r => r
+    | r => r
+
+/-- `Handle.__call__` : tree.py:40-46, with a loader that may use the tree -/
+def callHR (S : Scripts) : Nat → RSt → HId → RSt × Val
+  | 0, rs, _ => (rs, .none)
+  | fuel + 1, rs, h =>
+    let n := rs.st.h h
+    if n.cached then (rs, n.cache)
+    else
+      -- self.load() is entered
+      let k := n.tries + 1
+      let rs := { rs with st := rs.st.setH h { n with tries := k } }
+      if rs.st.failing h k then (rs, .exc h k)
+      else
+        -- the loader's own code, then it returns its object
+        let rs := fire S fuel rs (.load h)
+        -- self._cache = <returned>; self._cached = True   (whatever happened to the handle meanwhile)
+        let n := rs.st.h h
+        let v := Val.tok h (n.loads + 1)
+        ({ rs with st := rs.st.setH h { n with cache := v, cached := true, loads := n.loads + 1 } }, v)
+
+def getItemPathR (S : Scripts) : Nat → RSt → MId → List String → String → RSt × Outcome Item
+  | 0, rs, _, _, _ => (rs, .raised "RecursionError")
+  | fuel + 1, rs, i, ps, last =>
+    match walk rs.st i ps with
+    | none => (rs, .raised "KeyError")
+    | some t =>
+      match chainGet? (rs.st.m t).layers last with
+      | some h => let r := callHR S fuel rs h; (r.1, itemOf r.2)
+      | none =>
+        match Dict.get? (rs.st.m t).maps last with
+        | some c => (rs, .ok (.map c))
+        | none => (rs, .raised "KeyError")
+
+def chainItemsR (S : Scripts) : Nat → RSt → MId → List String → RSt × Outcome Item
+  | 0, rs, _, _ => (rs, .raised "RecursionError")
+  | _ + 1, rs, i, [] => (rs, .ok (.map i))
+  | fuel + 1, rs, i, k :: ks =>
+    match getItemPathR S fuel rs i [] k with
+    | (rs', .ok (.map c)) => chainItemsR S fuel rs' c ks
+    | (rs', .ok it) => if ks.isEmpty then (rs', .ok it) else (rs', .stuck)
+    | r => r
+
+def sGetAttr1R (S : Scripts) : Nat → RSt → Nat → String → RSt × Outcome Item
+  | 0, rs, _, _ => (rs, .raised "RecursionError")
+  | fuel + 1, rs, s, k =>
+    if (rs.st.s s).handleNames.contains k then
+      match Dict.get? (rs.st.s s).attrs k with
+      | some (.handle h) => let r := callHR S fuel rs h; (r.1, itemOf r.2)
+      | some (.sub _) => (rs, .raised "TypeError")
+      | none => (rs, .raised "AttributeError")
+    else
+      match Dict.get? (rs.st.s s).attrs k with
+      | some (.handle _) => (rs, .raised "NotUnwrapped")
+      | some (.sub s') => (rs, .ok (.smap s'))
+      | none => (rs, .raised "AttributeError")
+
+def sItemsR (S : Scripts) : Nat → RSt → Nat → List String → RSt × Outcome Item
+  | 0, rs, _, _ => (rs, .raised "RecursionError")
+  | _ + 1, rs, s, [] => (rs, .ok (.smap s))
+  | fuel + 1, rs, s, k :: ks =>
+    match sGetAttr1R S fuel rs s k with
+    | (rs', .ok (.smap s')) => sItemsR S fuel rs' s' ks
+    | (rs', .ok it) => if ks.isEmpty then (rs', .ok it) else (rs', .stuck)
+    | r => r
+
+/-- one operation of a script: what it returns or raises is dropped -/
+def execR (S : Scripts) : Nat → RSt → Op → RSt
+  | 0, rs, _ => rs
+  | fuel + 1, rs, op =>
+    match op with
+    | .set m key v => setItemR S fuel rs m key v
+    | .layer m => { rs with st := addLayer rs.st m }
+    | .clear m => (clearR S fuel rs m).1
+    | .getitem m key => (getItemPathR S fuel rs m (keyPath key).1 (keyPath key).2).1
+    | .chain m ks => (chainItemsR S fuel rs m ks).1
+    | .call h => (callHR S fuel rs h).1
+    | .hclear h => { rs with st := clearH rs.st h }
+    | .snap m => { rs with st := (snapshot (snapFuel rs.st) rs.st m).1 }
+    | .sitems s ks => (sItemsR S fuel rs s ks).1
+    | _ => rs
+
+def execOpsR (S : Scripts) : Nat → RSt → List Op → RSt
+  | 0, rs, _ => rs
+  | _ + 1, rs, [] => rs
+  | fuel + 1, rs, op :: ops => execOpsR S fuel (execR S fuel rs op) ops
+end
+
+/-- a top-level operation of a program with re-entrant user code (same results as `step`) -/
+def stepR (S : Scripts) (fuel : Nat) (rs : RSt) : Op → RSt × Out
+  | .set m key v => (setItemR S fuel rs m key v, .unit)
+  | .clear m => let r := clearR S fuel rs m; (r.1, .res r.2)
+  | .getitem m key => let r := getItemPathR S fuel rs m (keyPath key).1 (keyPath key).2; (r.1, .item r.2)
+  | .chain m ks => let r := chainItemsR S fuel rs m ks; (r.1, .item r.2)
+  | .call h => let r := callHR S fuel rs h; (r.1, .val r.2)
+  | .sitems s ks => let r := sItemsR S fuel rs s ks; (r.1, .item r.2)
+  | op => let r := step rs.st op; ({ rs with st := r.1 }, r.2)
+
+def reactFuel : Nat := 4000
+
 /-! ### line protocol -/
 open Proto
 
@@ -477,6 +718,20 @@ structure RS where
   alphabet : List String := []
   out : List String := []      -- newest first
   bad : Bool := false
+  /-- re-entrant user code: the script of the k-th run of a hook -/
+  scripts : Dict (Hook × Nat) (List Op) := []
+  fired : Dict Hook Nat := []
+
+/-- run one operation: with the plain semantics, or — when the scenario scripts user code — with the
+re-entrant one -/
+def RS.runOp (r : RS) (op : Op) : RS × Out :=
+  if r.scripts.isEmpty then
+    let q := step r.st op
+    ({ r with st := q.1 }, q.2)
+  else
+    let S : Scripts := fun hk k => (Dict.get? r.scripts (hk, k)).getD []
+    let q := stepR S reactFuel { st := r.st, fired := r.fired } op
+    ({ r with st := q.1.st, fired := q.1.fired }, q.2)
 
 def RS.emit (r : RS) (l : String) : RS := { r with out := l :: r.out }
 
@@ -566,6 +821,18 @@ def dumpSnap : Nat → RS → List String → Nat → RS
       | some (.handle h) => r.emit s!"snode {showPath (path ++ [k])} handle h{h}"
       | some (.sub s') => dumpSnap d (r.emit s!"snode {showPath (path ++ [k])} smap") (path ++ [k]) s') r
 
+/-- `.parent` / `.key` of the anonymous maps from position `j` of the discovery list on (the list may grow
+while it is printed: a parent may be an anonymous map not seen before) -/
+def linkAnon : Nat → RS → Nat → RS
+  | 0, r, _ => r
+  | fuel + 1, r, j =>
+    match r.anon[j]? with
+    | none => r
+    | some a =>
+      let n := r.st.m (.anon a)
+      let (r, pn) := nameOpt r n.parent
+      linkAnon fuel (r.emit s!"link a{j} parent={pn} key={showKey n.key}") (j + 1)
+
 def compsOf (t : String) : Option (List String) :=
   (parsePathTok t).map splitKey
 
@@ -575,6 +842,53 @@ def parseRef (r : RS) (t : String) : Option Ref :=
   | none => (Dict.get? r.menv t).map .map
 
 def anyReserved (ks : List String) : Bool := ks.any reserved
+
+/-- an operation inside a script (maps and handles by their declared names) -/
+def parseReactOp : List String → Option Op
+  | ["set", m, p, v] =>
+    match parseNamed 'm' m, parsePathTok p with
+    | some k, some key =>
+      match parseNamed 'h' v, parseNamed 'm' v with
+      | some h, _ => some (.set (.decl k) key (.handle h))
+      | none, some c => some (.set (.decl k) key (.map (.decl c)))
+      | none, none => none
+    | _, _ => none
+  | ["clear", m] => (parseNamed 'm' m).map fun k => .clear (.decl k)
+  | ["getitem", m, p] =>
+    match parseNamed 'm' m, parsePathTok p with
+    | some k, some key => some (.getitem (.decl k) key)
+    | _, _ => none
+  | ["get", m, p] =>
+    match parseNamed 'm' m, parsePathTok p with
+    | some k, some key => some (.get (.decl k) key)
+    | _, _ => none
+  | ["chain", m, p] =>
+    match parseNamed 'm' m, compsOf p with
+    | some k, some ks => some (.chain (.decl k) ks)
+    | _, _ => none
+  | ["call", h] => (parseNamed 'h' h).map .call
+  | ["hclear", h] => (parseNamed 'h' h).map .hclear
+  | ["snap", m] => (parseNamed 'm' m).map fun k => .snap (.decl k)
+  | _ => none
+
+/-- `op ; op ; op` -/
+def parseReactOps (toks : List String) : Option (List Op) :=
+  let groups := toks.foldr (fun t acc =>
+      if t = ";" then [] :: acc else match acc with
+        | [] => [[t]]
+        | g :: gs => (t :: g) :: gs) [[]]
+  (groups.filter (· ≠ [])).mapM parseReactOp
+
+def parseHook (kind obj : String) : Option Hook :=
+  let x : Option Ref := match parseNamed 'h' obj, parseNamed 'm' obj with
+    | some h, _ => some (.handle h)
+    | none, some k => some (.map (.decl k))
+    | none, none => none
+  match kind, x with
+  | "parent", some x => some (.parent x)
+  | "key", some x => some (.key x)
+  | "load", some (.handle h) => some (.load h)
+  | _, _ => none
 
 def execLine (r : RS) (line : String) : RS :=
   if r.bad then r else
@@ -602,6 +916,11 @@ def execLine (r : RS) (line : String) : RS :=
         { r with hdecl := r.hdecl ++ [k],
                  st := { r.st with failing := fun g n => if g = k then fails.contains n else old g n } }
     | _, _ => bad
+  | "react" :: kind :: obj :: k :: ":" :: rest =>
+    -- the k-th run (0-based) of a `parent` / `key` setter of a user subclass, or of a loader, does this
+    match parseHook kind obj, k.toNat?, parseReactOps rest with
+    | some hk, some k, some ops => { r with scripts := Dict.set r.scripts (hk, k) ops }
+    | _, _, _ => bad
   | ["op", "setkey", m, _badkey, _v] =>
     -- `m[<not a str>] = v`
     match parseNamed 'm' m with
@@ -639,7 +958,7 @@ def execLine (r : RS) (line : String) : RS :=
         | none => r.emit "unbound"
       else
       match Dict.get? r.menv m, parseRef r v with
-      | some i, some v => ({ r with st := (step r.st (.set i key v)).1 }).emit "res ok"
+      | some i, some v => (r.runOp (.set i key v)).1.emit "res ok"
       | _, _ => r.emit "unbound"
     | _, _ => bad
   | ["op", kind, x] =>
@@ -650,8 +969,12 @@ def execLine (r : RS) (line : String) : RS :=
         match Dict.get? r.menv x with
         | none => r.emit "unbound"
         | some i =>
-          if kind = "layer" then ({ r with st := (step r.st (.layer i)).1 }).emit "res ok"
-          else if kind = "clear" then ({ r with st := (step r.st (.clear i)).1 }).emit "res ok"
+          if kind = "layer" then (r.runOp (.layer i)).1.emit "res ok"
+          else if kind = "clear" then
+            let q := r.runOp (.clear i)
+            match q.2 with
+            | .res (.raised e) => q.1.emit s!"res raised {e}"
+            | _ => q.1.emit "res ok"
           else (dumpMap 5 r [] i).emit "end-dump"
     else if kind = "call" || kind = "hclear" || kind = "cached" || kind = "stat" then
       match parseNamed 'h' x with
@@ -659,8 +982,10 @@ def execLine (r : RS) (line : String) : RS :=
       | some h =>
         if !r.hdecl.contains h then bad
         else if kind = "call" then
-          let q := callH r.st h
-          ({ r with st := q.1 }).emit (showVal q.2)
+          let q := r.runOp (.call h)
+          match q.2 with
+          | .val v => q.1.emit (showVal v)
+          | _ => q.1.emit "bad-out"
         else if kind = "hclear" then ({ r with st := clearH r.st h }).emit "res ok"
         else if kind = "cached" then r.emit s!"cached h{h} {showBool (cachedH r.st h)}"
         else r.emit s!"stat h{h} loads={(r.st.h h).loads} tries={(r.st.h h).tries} cached={showBool (r.st.h h).cached}"
@@ -681,6 +1006,8 @@ def execLine (r : RS) (line : String) : RS :=
       let n := r.st.m (.decl k)
       let (r, pn) := nameOpt r n.parent
       r.emit s!"link m{k} parent={pn} key={showKey n.key}") r
+    -- the anonymous maps that have been seen so far (those met just above included), in discovery order
+    let r := linkAnon 64 r 0
     r.emit "end-links"
   | ["op", "snap", s, m] =>
     match parseNamed 's' s, parseNamed 'm' m with
@@ -704,11 +1031,15 @@ def execLine (r : RS) (line : String) : RS :=
           | none => r.emit "unbound"
           | some i =>
             if kind = "getitem" then
-              let q := getItem r.st i key
-              emitItem { r with st := q.1 } "item" q.2
+              let q := r.runOp (.getitem i key)
+              match q.2 with
+              | .item o => emitItem q.1 "item" o
+              | _ => q.1.emit "bad-out"
             else if kind = "chain" then
-              let q := chainItems r.st i ks
-              emitItem { r with st := q.1 } "item" q.2
+              let q := r.runOp (.chain i ks)
+              match q.2 with
+              | .item o => emitItem q.1 "item" o
+              | _ => q.1.emit "bad-out"
             else
               match get r.st i key with
               | none => r.emit "got default"
@@ -724,8 +1055,10 @@ def execLine (r : RS) (line : String) : RS :=
           | some s =>
             if anyReserved ks then r.emit "unmodelled"
             else if kind = "sgetitem" || kind = "sgetattr" then
-              let q := sItems r.st s ks
-              emitItem { r with st := q.1 } "sitem" q.2
+              let q := r.runOp (.sitems s ks)
+              match q.2 with
+              | .item o => emitItem q.1 "sitem" o
+              | _ => q.1.emit "bad-out"
             else if kind = "sget" then
               match sGetChain r.st s ks with
               | none => r.emit "sgot raised AttributeError"
